@@ -214,6 +214,13 @@ def rules(ctx: Ctx) -> None:
     loops = [n for n in prog.walk_fn(fold) if isinstance(n, ast.For) and over_candidates(n.iter)]
     comps = [n for n in prog.walk_fn(fold) if isinstance(n, (ast.GeneratorExp, ast.ListComp)) and any(over_candidates(g.iter) for g in n.generators)]
     ctx.floor("iterations over the owner candidates of an unresolved column", len(loops) + len(comps), 1)
+    # ... nor the last one: a dictionary built over the candidates and keyed by a part of what they list (`{col.raw_name: col for parent in candidates for
+    # col in lookup(parent)}`) keeps one column per name - the candidate visited last wins
+    for dc in [n for n in prog.walk_fn(fold) if isinstance(n, ast.DictComp) and any(over_candidates(g.iter) for g in n.generators)]:
+        tnames = {t.id for g in dc.generators for t in ast.walk(g.target) if isinstance(t, ast.Name)}
+        lossy = isinstance(dc.value, ast.Name) and dc.value.id in tnames and not (isinstance(dc.key, ast.Name) and dc.key.id == dc.value.id)
+        ctx.ob("R13.4", "repair:no-first-match", not lossy, loc(fold.mod, dc),
+               f"`{u(dc)[:70]}`: " + ("one entry per key - of several candidate owners that list the column only the last one visited is kept" if lossy else "keeps every element"))
     for c in comps:
         par = prog.parent(c)
         first = isinstance(par, ast.Call) and isinstance(par.func, ast.Name) and par.func.id == "next"
